@@ -48,7 +48,14 @@ ephemeralnet::protocol::Manifest g_manifest; bool g_decodable = true; bool g_pow
 std::string g_in; std::size_t g_read = 0; std::string g_out; unsigned g_closed = 0;
 }
 // ---- socket model: one connected client
-extern "C" ssize_t recv(int, void* buf, size_t n, int) {
+namespace { std::size_t g_out_read = 0; constexpr int kClientSideFd = 9; }
+extern "C" ssize_t recv(int fd, void* buf, size_t n, int) {
+    if (fd == kClientSideFd) {                                       // the control client reading what the daemon wrote
+        if (g_out_read >= g_out.size() || n == 0) return 0;
+        const std::size_t k = std::min(n, g_out.size() - g_out_read);
+        for (std::size_t i = 0; i < k; ++i) static_cast<char*>(buf)[i] = g_out[g_out_read + i];
+        g_out_read += k; return static_cast<ssize_t>(k);
+    }
     if (g_read >= g_in.size() || n == 0) return 0;                 // the client has sent everything and closed its side
     const std::size_t k = std::min(n, g_in.size() - g_read);
     for (std::size_t i = 0; i < k; ++i) static_cast<char*>(buf)[i] = g_in[g_read + i];
@@ -128,6 +135,20 @@ namespace std { using verif_sink_alias4 = verif_io::Sink; using verif_ofstream_a
 #undef ostringstream
 #undef ofstream
 #endif
+#ifdef VERIF_WITH_CLIENT
+// the control client's response reader, lifted from the current daemon/ControlClient.cpp (its helpers have the same names as the
+// server's, so it lives in its own namespace); it reads the daemon's output through recv(kClientSideFd)
+namespace client_side {
+using namespace ephemeralnet::daemon;
+using NativeSocket = int;
+#include SNIP_C_K1
+#include SNIP_C_TO_UPPER
+#include SNIP_C_RECV_LINE
+#include SNIP_C_RECV_EXACT
+#include SNIP_AUTO
+#include SNIP_C_PARSE_RESPONSE
+}
+#endif
 extern "C" void h_path_split_stub4(std::filesystem::path*) {}
 extern "C" void h_fs_parent_empty4(std::filesystem::path* out, const std::filesystem::path*) { new (out) std::filesystem::path(); }   // engine only: the output path has no directory part
 extern "C" void h_fs_absolute4(std::filesystem::path* out, const std::filesystem::path* in) { new (out) std::filesystem::path(*in); }
@@ -161,6 +182,7 @@ bool file_written() {
 }
 bool ends_with(const std::string& s, const char* suf) { const std::string x(suf); return s.size() >= x.size() && s.compare(s.size() - x.size(), x.size(), x) == 0; }
 void reset_env() {
+    g_out_read = 0;
 #ifdef VERIF_NATIVE
     { std::error_code ec; std::filesystem::remove(out_path(), ec); }
 #endif
@@ -208,3 +230,40 @@ extern "C" void h_c27_wire_open(unsigned long command) {
     if (command >= 2) verif_assert(g_rec.fetch_calls == 1, "C27: FETCH with the exact token fetches");
     verif_reach("accepted");
 }
+
+#ifdef VERIF_WITH_CLIENT
+// ---------------------------------------------------------------- C29 end to end: LIST over a store of n chunks -> the client's parsed fields
+// Every chunk's remaining lifetime is symbolic in [-1 s, +2.875 s] (1/8 s grid; <= 0 = expired but not yet swept), encrypted flag symbolic.
+extern "C" void h_c29_list(unsigned long nchunks) {
+    reset_env();
+    PartialNode pn; Node* n = pn.node();
+    std::mutex m; ControlServer::Impl impl(*n, m, [] {});
+    verif_env::g_steady_ns = 9000LL * 1000000000LL;
+    g_snapshot.clear();
+    long long left8[4]; bool enc[4];
+    for (unsigned long i = 0; i < nchunks; ++i) {
+        ChunkStore::SnapshotEntry e{}; e.id[0] = static_cast<std::uint8_t>(0xC0 + i); e.id[31] = static_cast<std::uint8_t>(i); e.key = chunk_id_to_string(e.id);
+        left8[i] = static_cast<long long>(nondet_u8("remaining_eighths") & 31) - 8; enc[i] = nondet_bool("encrypted");
+        e.expires_at = std::chrono::steady_clock::time_point(std::chrono::nanoseconds(verif_env::g_steady_ns + left8[i] * 125000000LL));
+        e.encrypted = enc[i]; e.size = 1000 + i;
+        g_snapshot.push_back(e);
+    }
+    g_in = "COMMAND:LIST\n\n";
+    impl.handle_client(5, "127.0.0.1");
+    const ControlResponse got = client_side::parse_response(kClientSideFd, nullptr);
+    verif_assert(got.success, "C29: the client sees the status the daemon sent");
+    const auto entries = got.fields.find("ENTRIES"); const auto count = got.fields.find("COUNT");
+    verif_assert(entries != got.fields.end() && count != got.fields.end(), "C29: the LIST response reaches the client with its ENTRIES and COUNT fields");
+    if (entries != got.fields.end() && count != got.fields.end()) {
+        std::size_t lines = 0; for (char c : entries->second) if (c == '\n') ++lines;
+        verif_assert(count->second == std::to_string(lines), "C29: COUNT equals the number of listed chunks");
+        for (unsigned long i = 0; i < nchunks; ++i) {
+            if (left8[i] <= 0) continue;                                    // not live any more: may or may not be listed
+            const std::string want = g_snapshot[i].key + "," + std::to_string(1000 + i) + "," + (enc[i] ? "encrypted" : "plain") + ",";
+            verif_assert(entries->second.find(want) != std::string::npos, "C29: eph list reports every live local chunk (also one in its last second)");
+        }
+    }
+    verif_assert(g_out_read == g_out.size(), "C29: the client consumes exactly the response");
+    verif_reach("listed");
+}
+#endif
